@@ -29,15 +29,26 @@ def history(rng, ttl_q, n_msgs, seg, sig_extra):
         seqno = 0
         sched = []
         sent = {}           # seq -> (put time, log token, plain?)
+        segmsgs = {}        # log -> [(seq, put time, in-time response time or None)]
         for i in range(n_msgs):
             t += rng.choice((0, 1, 7, ttl_q // 3))
             log = 100 + i
             if seg and i % 3 == 0:
                 tot = rng.choice((2, 3))
+                # the segments of one message are written at different instants (rate limiter, slow hook, back-pressure);
+                # each is a request of its own with its own time-to-live
+                gap = rng.choice((0, 0, 1, ttl_q // 3, ttl_q - 1, ttl_q // 2))
+                answer = rng.randrange(3)          # 0: none answered, 1: all in time, 2: some
                 for k in range(tot):
                     seqno += 1
-                    sched.append((t, len(sched), 'put', (seqno, log, (9 + i, k + 1, tot))))
-                    sent[seqno] = (t, log, False)
+                    tk = t + k * gap
+                    sched.append((tk, len(sched), 'put', (seqno, log, (9 + i, k + 1, tot))))
+                    sent[seqno] = (tk, log, False)
+                    if answer == 1 or (answer == 2 and rng.random() < 0.5):
+                        off = rng.choice((1, 5, ttl_q // 2, ttl_q - 1)) if answer == 1 else rng.choice((5, ttl_q - 1, ttl_q + 1))
+                        sched.append((tk + off, len(sched), 'resp', (seqno, False)))
+                    segmsgs.setdefault(log, []).append((seqno, tk, (tk + off) if answer == 1 else None))
+                t += (tot - 1) * gap
             else:
                 seqno += 1
                 sched.append((t, len(sched), 'put', (seqno, log, None)))
@@ -101,6 +112,15 @@ def history(rng, ttl_q, n_msgs, seg, sig_extra):
                     elif first_op_after is not None and errs[0] > first_op_after:
                         fail = 'request %d: time-out reported at %d, later than the first operation after expiry (%d)' % (
                             sq, errs[0], first_op_after)
+        # a segmented message whose every segment was answered within that segment's own time-to-live is never
+        # reported as timed out
+        for log, segs in segmsgs.items():
+            if all(rt is not None for (_s, _t, rt) in segs) and fail is None:
+                errs = [(et, ev) for (et, ev) in events if any(ev.startswith('E=submit:%d:' % sq) for (sq, _t, _r) in segs)]
+                if errs:
+                    fail = ('segmented message %d: every segment answered within the time-to-live of its own sending '
+                            '(%s, ttl %d), yet reported as timed out at %d' % (
+                                log, ', '.join('seq %d sent %d answered %d' % x for x in segs), ttl_q, errs[0][0]))
         sig = ('ttl%d' % (ttl_q // Q), min(n_msgs, 4) if n_msgs < 4 else (8 if n_msgs < 9 else 12), any_answered,
                any_expired, seg) + sig_extra
         cases.append(Case(ln, out, sig, fail, {'op': 'history', 'ttl': ttl_q, 'lines': [c.line for c in cases[1:]]}))
